@@ -17,8 +17,8 @@ Lemma sel_events_field s ty_ parent cf alias n args dirs sl sub l :
   :: map (EDirective (S_ "FIELD") fdef) dirs
   ++ match sl with
      | None => []
-     | Some _ => ESelSet (sel_parent s fty) sub
-                 :: flat_map (sel_events s fty (sel_parent s fty) fdef) sub
+     | Some l0 => ESelSet (sel_parent s fty) l0 sub
+                  :: flat_map (sel_events s fty (sel_parent s fty) fdef) sub
      end.
 Proof.
   simpl. destruct sl; [|reflexivity].
@@ -33,7 +33,7 @@ Lemma sel_events_inline s ty_ parent cf tc dirs ssl sub l :
              end in
   EInline ity parent tc dirs l
   :: map (EDirective (S_ "INLINE_FRAGMENT") cf) dirs
-  ++ ESelSet (sel_parent s ity) sub :: flat_map (sel_events s ity (sel_parent s ity) cf) sub.
+  ++ ESelSet (sel_parent s ity) ssl sub :: flat_map (sel_events s ity (sel_parent s ity) cf) sub.
 Proof.
   simpl. rewrite (go_is_flat_map (sel_events s _ _ _) sub). reflexivity.
 Qed.
